@@ -131,6 +131,12 @@ func parseConfig(s *cryptobyte.String) (ConfigSpec, error) {
 	if !ss.ReadUint8LengthPrefixed((*cryptobyte.String)(&out.PublicName)) {
 		return out, ErrDecodeError
 	}
+	// The extensions field is mandatory, even when it is empty. Contents
+	// that end before it are truncated.
+	var extensions cryptobyte.String
+	if !ss.ReadUint16LengthPrefixed(&extensions) {
+		return out, ErrDecodeError
+	}
 	return out, nil
 }
 
